@@ -915,6 +915,17 @@ func runAPI(cfg *config, prop string) *Report {
 			reqs = append(reqs, &apiReq{Kind: "get", ID: b}, &apiReq{Kind: "val", ID: a}, &apiReq{Kind: "cont", ID: b})
 			directed = append([]directedHist{{false, reqs}}, directed...)
 		}
+		// two different documents submitted under ONE file ID, with reads in between: the second submission replaces the
+		// file, and every later read answers with the second
+		if len(pools.jsonDocs) >= 2 && pools.jsonIDs[0] != "" && pools.jsonIDs[1] != "" {
+			a, b := pools.jsonIDs[0], pools.jsonIDs[1]
+			second := bytes.Replace(pools.jsonDocs[1], []byte(`"id":"`+b+`"`), []byte(`"id":"`+a+`"`), 1)
+			if !bytes.Equal(second, pools.jsonDocs[1]) {
+				reqs := []*apiReq{{Kind: "c1", Body: pools.jsonDocs[0], CT: "application/json", Src: "clean"}, {Kind: "get", ID: a}, {Kind: "cont", ID: a}, {Kind: "get", ID: a},
+					{Kind: "c1", Body: second, CT: "application/json", Src: "clean"}, {Kind: "get", ID: a}, {Kind: "cont", ID: a}, {Kind: "list"}, {Kind: "val", ID: a}, {Kind: "get", ID: a}}
+				directed = append([]directedHist{{false, reqs}}, directed...)
+			}
+		}
 		// a well-filled store: thirty files created one after the other (the server draws the IDs), the last one read,
 		// the list fetched, the last one read again (limits and paging of the list must not touch what is stored)
 		if len(pools.jsonDocs) > 0 {
@@ -933,8 +944,8 @@ func runAPI(cfg *config, prop string) *Report {
 				&apiReq{Kind: "cont", ID: "@last"}, &apiReq{Kind: "list"}, &apiReq{Kind: "val", ID: "@last"}, &apiReq{Kind: "get", ID: "@last"})
 			directed = append([]directedHist{{false, reqs}}, directed...)
 		}
-		if cfg.tier != "thorough" && len(directed) > 11 {
-			directed = directed[:11]
+		if cfg.tier != "thorough" && len(directed) > 12 {
+			directed = directed[:12]
 		}
 		nHist += len(directed)
 	}
